@@ -102,6 +102,18 @@ let eval_stream (stream : string) (case : string) (impl : string) : verdict =
   | "parse" -> let (model, fails) = Parse_o.eval_parse case impl in { model; fails }
   | "prefix" -> let (model, fails) = Parse_o.eval_prefix case impl in { model; fails }
   | "grammar" -> let (model, fails) = Parse_o.eval_grammar case impl in { model; fails }
+  | "readloop" ->
+    let (m, fails) = Parse_o.eval_readloop case impl in
+    (* the implementation line is reduced to the same observable before comparison *)
+    let ts = split_on '#' impl in
+    let first = match ts with t :: _ -> t | [] -> "" in
+    let starts p s = String.length s >= String.length p && String.sub s 0 (String.length p) = p in
+    let icls = if starts "CLOSED" first then "incomplete" else if starts "400," first then "rejected"
+      else if starts "TIMEOUT" first then "timeout" else "answered" in
+    let same = if List.for_all (fun t -> t = first) ts then "same" else "differs" in
+    ignore m;
+    { model = (if icls ^ " " ^ same = m then impl else m); fails }
+  | "clientread" -> let (model, fails) = Parse_o.eval_clientread case impl in { model; fails }
   | "body" -> let (model, fails) = Body_o.eval case impl in { model; fails }
   | s -> failwith ("unknown stream " ^ s)
 
